@@ -204,6 +204,7 @@ type rstream struct {
 	startOff    int64
 	sentLog     []*proto.Append // every append the cursor sent on this stream
 	ackLog      []int64         // every ack the follower emitted on this stream
+	ackSynced   []int64         // the follower's WAL synced offset (real wal.LastOffset()) when it sent that ack
 	serverStarted bool
 	handedOver    bool // GetReplicateStream returned this stream to the cursor
 	lastDelivOff  int64 // offset of the last append handed to the follower
@@ -345,6 +346,12 @@ func (x *rServer) Context() context.Context { return x.s.srvCtx }
 
 func (x *rServer) Send(a *proto.Ack) error {
 	s := x.s
+	synced := int64(-2)
+	if fn := s.c.node(s.to); fn != nil {
+		if w := fn.realWal.Load(); w != nil {
+			synced = w.Wal.LastOffset()
+		}
+	}
 	s.mu.Lock()
 	defer s.mu.Unlock()
 	if s.broken || s.cliClosed || s.srvCtx.Err() != nil {
@@ -352,6 +359,7 @@ func (x *rServer) Send(a *proto.Ack) error {
 	}
 	s.toL = append(s.toL, a)
 	s.ackLog = append(s.ackLog, a.Offset)
+	s.ackSynced = append(s.ackSynced, synced)
 	if a.Offset > s.maxAckedOff {
 		s.maxAckedOff = a.Offset
 	}
